@@ -228,6 +228,10 @@ class Dataflow:
             return self.restrict(st, e[1], (vs[0], flip(vs[1])))
         cur = st.get(e, TOP)
         new = vs_meet(cur, vs)
+        if new[0] == "notin" and k == "disc" and self.facts is not None:
+            adt = self.facts.adts.get(adt_of_type(self.disc_ty.get(e[1], "")))
+            if adt is not None and adt["adt_kind"] == "enum":
+                new = ("in", frozenset(int(v["discr"]) for v in adt["variants"]) - new[1])
         if vs_empty(new):
             return None
         st = dict(st)
